@@ -206,33 +206,33 @@ macro_rules! step_harness {
     };
 }
 
-//@ob fn="connect" at=src/lib.rs:675 clause="n=2, arbitrary matching, i!=j not linked to each other: no panic, no borrow leaked, afterwards other(i)==j, other(j)==i, former partners unlinked, all other links unchanged, links form a symmetric matching (inductive invariant => every operation sequence), all slots bit-unchanged" bounded="n=2 terminals"
+//@ob fn="connect" at=src/lib.rs:675 clause="n=2, arbitrary matching, i!=j not linked to each other: no panic, no borrow leaked, afterwards other(i)==j, other(j)==i, former partners unlinked, all other links unchanged, links form a symmetric matching (inductive invariant => every operation sequence), all slots bit-unchanged" instance="n=2 terminals"
 step_harness!(c09_connect_step_n2, 4, Op::ConnectNotPaired, [a, b]);
-//@ob prop=C09,C08,C13,C20 fn="connect" at=src/lib.rs:675 clause="n=3, arbitrary matching, i!=j not linked to each other: no panic, no borrow leaked, afterwards other(i)==j, other(j)==i, former partners unlinked, all other links unchanged, links form a symmetric matching (inductive invariant => every operation sequence), all slots bit-unchanged" bounded="n=3 terminals"
+//@ob prop=C09,C08,C13,C20 fn="connect" at=src/lib.rs:675 clause="n=3, arbitrary matching, i!=j not linked to each other: no panic, no borrow leaked, afterwards other(i)==j, other(j)==i, former partners unlinked, all other links unchanged, links form a symmetric matching (inductive invariant => every operation sequence), all slots bit-unchanged" instance="n=3 terminals"
 step_harness!(c09_connect_step_n3, 5, Op::ConnectNotPaired, [a, b, c]);
-//@ob fn="connect" at=src/lib.rs:675 clause="n=4 (covers every aliasing pattern of a, b, a.other, b.other), arbitrary matching, i!=j not linked to each other: no panic, no borrow leaked, afterwards other(i)==j, other(j)==i, former partners unlinked, all other links unchanged, links form a symmetric matching (inductive invariant => every operation sequence), all slots bit-unchanged" bounded="n=4 terminals"
+//@ob fn="connect" at=src/lib.rs:675 clause="n=4 (covers every aliasing pattern of a, b, a.other, b.other), arbitrary matching, i!=j not linked to each other: no panic, no borrow leaked, afterwards other(i)==j, other(j)==i, former partners unlinked, all other links unchanged, links form a symmetric matching (inductive invariant => every operation sequence), all slots bit-unchanged" instance="n=4 terminals"
 step_harness!(c09_connect_step_n4, 6, Op::ConnectNotPaired, [a, b, c, d]);
-//@ob fn="connect" at=src/lib.rs:675 clause="as c09_connect_step_n4 with n=5" bounded="n=5 terminals" tier=thorough
+//@ob fn="connect" at=src/lib.rs:675 clause="as c09_connect_step_n4 with n=5" instance="n=5 terminals" tier=thorough
 step_harness!(c09_connect_step_n5, 7, Op::ConnectNotPaired, [a, b, c, d, e]);
-//@ob fn="connect" at=src/lib.rs:675 clause="as c09_connect_step_n4 with n=6 (the property's own range)" bounded="n=6 terminals" tier=thorough
+//@ob fn="connect" at=src/lib.rs:675 clause="as c09_connect_step_n4 with n=6 (the property's own range)" instance="n=6 terminals" tier=thorough
 step_harness!(c09_connect_step_n6, 8, Op::ConnectNotPaired, [a, b, c, d, e, f]);
 
-//@ob fn="connect" at=src/lib.rs:675 clause="n=4, arbitrary matching in which i and j are ALREADY linked to each other: connect(i,j) does not panic, leaves them linked to each other, everything else unchanged, slots bit-unchanged ('first unlinks whatever either was linked to (including each other) and never panics')" bounded="n=4 terminals"
+//@ob fn="connect" at=src/lib.rs:675 clause="n=4, arbitrary matching in which i and j are ALREADY linked to each other: connect(i,j) does not panic, leaves them linked to each other, everything else unchanged, slots bit-unchanged ('first unlinks whatever either was linked to (including each other) and never panics')" instance="n=4 terminals"
 step_harness!(c09_connect_already_connected_pair_no_panic, 6, Op::ConnectPaired, [a, b, c, d]);
-//@ob fn="connect" at=src/lib.rs:675 clause="as c09_connect_already_connected_pair_no_panic with n=2 (the two-terminal history connect(a,b); connect(a,b))" bounded="n=2 terminals"
+//@ob fn="connect" at=src/lib.rs:675 clause="as c09_connect_already_connected_pair_no_panic with n=2 (the two-terminal history connect(a,b); connect(a,b))" instance="n=2 terminals"
 step_harness!(c09_connect_already_connected_pair_no_panic_n2, 4, Op::ConnectPaired, [a, b]);
-//@ob fn="connect" at=src/lib.rs:675 clause="as c09_connect_already_connected_pair_no_panic with n=6" bounded="n=6 terminals" tier=thorough
+//@ob fn="connect" at=src/lib.rs:675 clause="as c09_connect_already_connected_pair_no_panic with n=6" instance="n=6 terminals" tier=thorough
 step_harness!(c09_connect_already_connected_pair_no_panic_n6, 8, Op::ConnectPaired, [a, b, c, d, e, f]);
 
-//@ob fn="Terminal::disconnect" at=src/lib.rs:527 clause="n=2, arbitrary matching, any i: no panic, no borrow leaked, i and its former partner unlinked, all other links unchanged, symmetric matching preserved, all slots bit-unchanged" bounded="n=2 terminals"
+//@ob fn="Terminal::disconnect" at=src/lib.rs:527 clause="n=2, arbitrary matching, any i: no panic, no borrow leaked, i and its former partner unlinked, all other links unchanged, symmetric matching preserved, all slots bit-unchanged" instance="n=2 terminals"
 step_harness!(c09_disconnect_step_n2, 4, Op::Disconnect, [a, b]);
-//@ob prop=C09,C08,C13,C20 fn="Terminal::disconnect" at=src/lib.rs:527 clause="n=3, arbitrary matching, any i: no panic, no borrow leaked, i and its former partner unlinked, all other links unchanged, symmetric matching preserved, all slots bit-unchanged" bounded="n=3 terminals"
+//@ob prop=C09,C08,C13,C20 fn="Terminal::disconnect" at=src/lib.rs:527 clause="n=3, arbitrary matching, any i: no panic, no borrow leaked, i and its former partner unlinked, all other links unchanged, symmetric matching preserved, all slots bit-unchanged" instance="n=3 terminals"
 step_harness!(c09_disconnect_step_n3, 5, Op::Disconnect, [a, b, c]);
-//@ob fn="Terminal::disconnect" at=src/lib.rs:527 clause="n=4, arbitrary matching, any i: no panic, no borrow leaked, i and its former partner unlinked, all other links unchanged, symmetric matching preserved, all slots bit-unchanged" bounded="n=4 terminals"
+//@ob fn="Terminal::disconnect" at=src/lib.rs:527 clause="n=4, arbitrary matching, any i: no panic, no borrow leaked, i and its former partner unlinked, all other links unchanged, symmetric matching preserved, all slots bit-unchanged" instance="n=4 terminals"
 step_harness!(c09_disconnect_step_n4, 6, Op::Disconnect, [a, b, c, d]);
-//@ob fn="Terminal::disconnect" at=src/lib.rs:527 clause="as c09_disconnect_step_n4 with n=5" bounded="n=5 terminals" tier=thorough
+//@ob fn="Terminal::disconnect" at=src/lib.rs:527 clause="as c09_disconnect_step_n4 with n=5" instance="n=5 terminals" tier=thorough
 step_harness!(c09_disconnect_step_n5, 7, Op::Disconnect, [a, b, c, d, e]);
-//@ob fn="Terminal::disconnect" at=src/lib.rs:527 clause="as c09_disconnect_step_n4 with n=6" bounded="n=6 terminals" tier=thorough
+//@ob fn="Terminal::disconnect" at=src/lib.rs:527 clause="as c09_disconnect_step_n4 with n=6" instance="n=6 terminals" tier=thorough
 step_harness!(c09_disconnect_step_n6, 8, Op::Disconnect, [a, b, c, d, e, f]);
 
 //@ob fn="Terminal::new" at=src/lib.rs:522 clause="a new terminal is unlinked, has no state/command request and follows nothing (base case of the matching invariant); all three reads are Ok(None)"
